@@ -453,11 +453,73 @@ func ruleLoadTimestampMax(c *Ctx) {
 	c.Check(okPrefix, rule, "EtcdKVGet in "+fnName(load), "scans all windows under the root path (WithPrefix)", P.pos(load.Pos()), "no prefix scan")
 }
 
+// ruleWallClockHelpers: the window test "stored window − next physical" and the
+// fall-back guard compare *wall-clock* readings: typeutil's two helpers subtract
+// UnixNano() values. time.Time.Sub would use the monotonic readings of values
+// taken with time.Now(), which do not follow a stepped wall clock — and the
+// stored window is a wall-clock value.
+func ruleWallClockHelpers(c *Ctx) {
+	P := c.P
+	rule := c.Prop + "/wall-clock-helpers"
+	for _, name := range []string{"SubRealTimeByWallClock", "SubTSOPhysicalByWallClock"} {
+		fn := P.Func("pkg/typeutil", name)
+		c.saw(fnName(fn))
+		usesSub, okShape := false, false
+		for _, b := range fn.Blocks {
+			for _, ins := range b.Instrs {
+				if cl, ok := ins.(*ssa.Call); ok && (isStdMethod(cl, "time", "Time", "Sub") || isStdMethod(cl, "time", "Time", "Since")) {
+					usesSub = true
+				}
+				if r, ok := ins.(*ssa.Return); ok && len(r.Results) == 1 {
+					okShape = derivesFrom(retVal(r, 0), func(v ssa.Value) bool {
+						bo, ok := v.(*ssa.BinOp)
+						if !ok || bo.Op != token.SUB {
+							return false
+						}
+						isUnix := func(x ssa.Value) bool {
+							return derivesFrom(x, func(y ssa.Value) bool {
+								cl, _ := callOf(y)
+								return cl != nil && isStdMethod(cl, "time", "Time", "UnixNano")
+							}, 3)
+						}
+						return isUnix(bo.X) && isUnix(bo.Y)
+					}, 3)
+				}
+			}
+		}
+		c.Check(okShape && !usesSub, rule, name, "the difference of the two UnixNano() readings (wall clock), never time.Time.Sub (monotonic clock)", P.pos(fn.Pos()), "")
+	}
+}
+
+// ruleResetGroupUnconditional: stepping down clears the in-memory timestamp of
+// the dc-location whatever the lease says at that moment (the lease is closed
+// first on the ordinary step-down path); a member that keeps its old timestamp
+// answers from it between its next campaign and the following sync.
+func ruleResetGroupUnconditional(c *Ctx) {
+	P := c.P
+	rule := c.Prop + "/reset-on-failure"
+	fn := P.Method("server/tso", "AllocatorManager", "ResetAllocatorGroup")
+	reset := P.IMethod("server/tso", "Allocator", "Reset")
+	groups := P.Field("server/tso", "AllocatorManager", "mu", "allocatorGroups")
+	absent := &guardEv{name: "no allocator group for the dc-location", match: func(cond ssa.Value, pos bool) bool {
+		e, ok := strip(cond).(*ssa.Extract)
+		if !ok || pos || e.Index != 1 {
+			return false
+		}
+		lk, ok := e.Tuple.(*ssa.Lookup)
+		return ok && isLoadOf(lk.X, groups)
+	}}
+	c.need(rule, fn, "return", func(x ssa.Instruction) bool { _, ok := x.(*ssa.Return); return ok },
+		[]Ev{&calledEv{name: "allocator.Reset()", match: instrCallMatcher(reset)}, absent}, anyOf,
+		"an existing allocator group is always reset (in-memory timestamp cleared), whatever its lease state")
+}
+
 func init() {
 	register("C02", "Granted timestamps stay below the durably stored time window", func(c *Ctx) {
 		c.Group("C02/save-before-advance", "memory never advances past a window that was not stored first (every CFG path to an advance passes the success edge of saveTimestamp for the same value, or the window guard's 'still enough' edge)", func() { ruleSaveBeforeAdvance(c) })
 		c.Group("C02/window-txn", "the window key has one writer, inside a leader-guarded transaction; the remembered window is updated only after the transaction is known applied", func() { ruleSaveTimestampShape(c) })
-		c.Group("C02/reset-on-failure", "failure to extend the window resets the allocator; an initialised leader always resets on exit", func() { ruleResetOnFailure(c) })
+		c.Group("C02/reset-on-failure", "failure to extend the window resets the allocator; an initialised leader always resets on exit", func() { ruleResetOnFailure(c); ruleResetGroupUnconditional(c) })
+		c.Group("C02/wall-clock-helpers", "the window arithmetic is done on wall-clock readings", func() { ruleWallClockHelpers(c) })
 		c.Group("C02/load-max-window", "loading takes the maximum over all stored windows", func() { ruleLoadTimestampMax(c) })
 	})
 }
